@@ -170,6 +170,16 @@ func c07Amd64(r *Report, u *AsmUnit) {
 		}
 	}
 	c07TagFold(r, rt, flow, a, verdict)
+	// REGISTER-DEFINED: the expected tag is a function of the inputs only if no vector register is read before it is written
+	if undef := VecDefBeforeUse(rt, flow); len(undef) > 0 {
+		for i, u := range undef {
+			if i < 6 {
+				r.Viol("REGISTER-DEFINED", "amd64/openAsm: "+u[strings.Index(u, ": ")+2:], "sm4/"+u[:strings.Index(u, ": ")], "a vector register is read before it is written on some path from the entry: the expected tag depends on what an earlier call left in it")
+			}
+		}
+	} else {
+		r.Ok("REGISTER-DEFINED", "amd64/openAsm", "sm4/"+rt.File, "every vector and mask register is written on every path before it is read")
+	}
 	// the expected tag must be computed over every byte of aad, nonce and ciphertext[:len-tagSize]: consumption rule of A4
 	dataSize := map[string]int{}
 	for _, d := range u.DataSyms() {
